@@ -659,6 +659,19 @@ impl Sys {
                 let k = p(1);
                 let tick_ms = if lab[0] != "F" { lab[2].to_string() } else { "101".to_string() };
                 let one = lab[0] == "H";
+                if !self.in_tail {
+                    // a 2*MSL wait that the lossy phase has all but used up runs out before the peer's
+                    // retransmitted FIN can arrive: same class as an expiry before the tail
+                    for s in 0..2 {
+                        if let End::Live(t) = &self.end[s] {
+                            if let Some(tw) = t.verif_snapshot().time_wait_nanos {
+                                if tw < 500_000_000 {
+                                    self.expired_before_tail = true;
+                                }
+                            }
+                        }
+                    }
+                }
                 self.in_tail = true;
                 for _ in 0..k {
                     for s in 0..2 {
@@ -1008,15 +1021,10 @@ fn gen_case(rng: &mut Rng, idx: usize) -> String {
         let _ = push(&mut sys, &mut labels, tail);
         // let a 2*MSL wait run out - but only on a side that is in TIME-WAIT, so that the long tick cannot
         // rescue a retransmission timer that failed to expire during the tail
-        let mut waited = false;
-        for s in 0..2 {
-            if sys.state(s) == Some(State::TimeWait) {
-                let _ = push(&mut sys, &mut labels, format!("T {} 2001", s));
-                waited = true;
-            }
-        }
-        if waited {
-            let _ = push(&mut sys, &mut labels, "F 3".into());
+        // let a 2*MSL wait run out by itself: a second loss-free tail of 2.25 s in short ticks (a long tick
+        // would end a wait that keeps being restarted, e.g. two TIME-WAIT endpoints answering each other's ACKs)
+        if (0..2).any(|s| sys.state(s) == Some(State::TimeWait)) {
+            let _ = push(&mut sys, &mut labels, "G 75 30".into());
         }
         labels.push("Q".into());
     } else if alive {
